@@ -1152,6 +1152,9 @@ func (g *genCtx) generate(cf *ContractFile) (string, error) {
 						et = "uint8"
 					}
 					mi.Kind, mi.Type, mi.Field = "wholekey", "", "E:"+et
+				case raw == "map *":
+					// the contents of every Go map (maps created by the function itself included)
+					mi.Kind = "allmaps"
 				case strings.HasPrefix(raw, "map "):
 					// the contents of one Go map
 					mi.Kind = "mapof"
